@@ -57,6 +57,9 @@ type childSpec struct {
 	ASLimit  uint64 `json:"as_limit"`
 	Compact  bool   `json:"compact,omitempty"` // Options.Compact: the formatted text EvalOne always builds has no indentation
 	MemLimit string `json:"mem_limit,omitempty"`
+	// ApiLimit > 0: the memory limit is NOT in the environment; the child sets it with debug.SetMemoryLimit, the way an
+	// embedding program (or main() after reading a flag) does
+	ApiLimit int64 `json:"api_limit,omitempty"`
 }
 
 type childReport struct {
@@ -128,6 +131,9 @@ func childMain() {
 	}
 	if sp.ASLimit > 0 {
 		_ = syscall.Setrlimit(syscall.RLIMIT_AS, &syscall.Rlimit{Cur: sp.ASLimit, Max: sp.ASLimit})
+	}
+	if sp.ApiLimit > 0 {
+		debug.SetMemoryLimit(sp.ApiLimit)
 	}
 	log.SetLogLevelQuiet(log.Critical)
 	log.SetOutput(io.Discard)
@@ -207,7 +213,12 @@ func runChild(c *Ctx, sp childSpec, memLimit string, hardKill time.Duration) chi
 	ctx, cancel := context.WithTimeout(context.Background(), hardKill)
 	defer cancel()
 	cmd := exec.CommandContext(ctx, self)
-	cmd.Env = append(os.Environ(), "C09_CHILD=1", "C09_SPEC="+specFile, "GOMEMLIMIT="+memLimit, "GOTRACEBACK=single")
+	cmd.Env = append(os.Environ(), "C09_CHILD=1", "C09_SPEC="+specFile, "GOTRACEBACK=single")
+	if sp.ApiLimit == 0 {
+		cmd.Env = append(cmd.Env, "GOMEMLIMIT="+memLimit)
+	} else {
+		cmd.Env = append(cmd.Env, "GOMEMLIMIT=") // unset: the limit comes from the API call in the child
+	}
 	cmd.Dir = dir
 	var so, se strings.Builder
 	cmd.Stdout, cmd.Stderr = &so, &limitedBuf{max: 4000, b: &se}
@@ -309,7 +320,7 @@ var maxOverrun, maxRSSRatio, maxOverrunClean, maxRSSRatioClean float64
 
 // judge one child run; kind is the program family used in signatures
 func judge(c *Ctx, kind string, sp childSpec, r childResult, wantGuard string) {
-	cs := fmt.Sprintf("CHILD depth=%d dur=%dms cancel=%dms mem=%s compact=%v gen=%s n=%d src=%s", sp.MaxDepth, sp.DurMs, sp.CancelMs, r.memLimit, sp.Compact, sp.Gen, sp.N, Hx([]byte(trunc(sp.Src, 400))))
+	cs := fmt.Sprintf("CHILD depth=%d dur=%dms cancel=%dms mem=%s api=%d compact=%v gen=%s n=%d src=%s", sp.MaxDepth, sp.DurMs, sp.CancelMs, r.memLimit, sp.ApiLimit, sp.Compact, sp.Gen, sp.N, Hx([]byte(trunc(sp.Src, 400))))
 	c.Count("child:" + kind)
 	switch {
 	case r.killed:
@@ -644,6 +655,24 @@ func sweepPrograms() []prog {
 		{"sprintf-double", `s="ab"; for true {s=sprintf("%s%s",s,s)}`, "memory deadline"},
 		{"join-double", `a=["abcdefgh"*1000]*200; for true {a=a+[join(a)]}`, "memory deadline"},
 		{"image-new-loop", `n=0; for true {image.new(str(n),1024,1024); n=n+1}`, "memory deadline"},
+		// code evaluated in a NEW evaluator state (unjson: blank state; macro bodies: per-call state) or re-entering the
+		// same one (eval) must inherit deadline, cancellation and depth
+		{"blank-state-loop", `unjson("for true {}")`, "deadline"},
+		{"blank-state-loop-in-func", `func f(){ unjson("n=0; for true {n=n+1}") }; f()`, "deadline"},
+		{"blank-state-rec", `unjson("func g(){g()};g()")`, "depth deadline"},
+		{"blank-state-depth-adds", `func f(n){if n==0 {unjson("func g(n){if n>=300 {return n}; g(n+1)}; g(0)")} else {f(n-1)}}; f(300)`, "depth deadline"},
+		{"eval-depth-adds", `func f(n){if n==0 {eval("func g(n){if n>=300 {return n}; g(n+1)}; g(0)")} else {f(n-1)}}; f(300)`, "depth deadline"},
+		{"eval-loop", `eval("for true {}")`, "deadline"},
+		{"macro-body-loop", `m=macro(a){for true {}; quote(1)}; m(1)`, "deadline"},
+		{"macro-body-rec", `m=macro(a){func g(){1+g()}; g(); quote(1)}; m(1)`, "depth deadline"},
+		{"macro-depth-adds", `m=macro(a){func g(n){if n>=300 {return n}; g(n+1)}; g(0); quote(1)}; func f(n){if n==0 {eval("m(1)")} else {f(n-1)}}; f(300)`, "depth deadline"},
+		{"catch-loop", `catch(eval("for true {}")); for true {}`, "deadline"},
+		// loop bodies that leave the iteration early
+		{"loop-continue", "for true {continue}", "deadline"},
+		{"loop-continue-count", "n=0; for true {n++; continue}", "deadline"},
+		{"loop-range-continue", "for i=0:(1<<62) {continue}", "deadline"},
+		{"loop-int-continue", "for 4611686018427387904 {continue}", "deadline"},
+		{"loop-forin-continue", "a=0:3000; for true {for x=a {continue}}", "deadline"},
 		{"image-curve-far", `image.new("i",8,8); image.move_to("i",0,0); image.quad_to("i",1e18,1e18,9e18,9e18); 1`, "error deadline"},
 	}
 }
@@ -690,6 +719,11 @@ func boundedFamilies() []prog {
 		{"forcond-with-forin", arr + "k=0; for k<6000 {k=k+1; for y=a {y}}; k", ""},
 		{"forN-finite", "n=0; for 14000000 {n=n+1}; n", ""},
 		{"forN-nested", "for 12000 {for 12000 {1}}", ""},
+		{"forN-continue", "for 9500 {for 9500 {continue}}", ""},
+		{"forrange-continue", "for i=0:9000 {for j=0:9000 {continue}}", ""},
+		{"forcond-continue", "n=0; for n<18000000 {n++; continue}; n", ""},
+		{"forin-continue-bare", "a=0:6000; for x=a {for y=a {continue}}", ""},
+		{"forin-map-continue", "m={}; for i=0:3800 {m[i]=i}; for kv=m {for kw=m {continue}}", ""},
 		{"forrange-nested", "n=0; for i=0:5000 {for j=0:5000 {n=i+j}}; n", ""},
 		{"forrange-forin", arr + "for i=0:6000 {for y=a {i+y}}", ""},
 		{"forin-forrange", arr + "for x=a {for j=0:12000 {x+j}}", ""},
@@ -784,6 +818,20 @@ func runC09(c *Ctx) {
 			}
 		}
 		c.Case(sc.line, obs)
+	}
+
+	// 3b. the same budget when the limit is set through the API (debug.SetMemoryLimit in the embedding program) and
+	//     GOMEMLIMIT is absent from the environment: FreeMemory must see the limit in force NOW
+	for _, p := range []prog{
+		{"api-limit-repeat-string", `x="abcdefgh"*1000000000; len(x)`, "memory"},
+		{"api-limit-repeat-array", "x=[1,2,3]*100000000; len(x)", "memory"},
+		{"api-limit-range", "x=0:100000000; len(x)", "memory"},
+		{"api-limit-double-string", `s="ab"; for true {s=s+s}`, "memory deadline"},
+		{"api-limit-double-array", "a=[1]; for true {a=a+a}", "memory deadline"},
+		{"api-limit-small-ok", "x=[1,2,3]*1000; len(x)", "none"},
+	} {
+		sp := childSpec{Src: p.src, MaxDepth: 150, DurMs: 1500, ASLimit: asLimit, ApiLimit: 200 << 20}
+		judge(c, p.kind, sp, runChild(c, sp, memLimitStr, 20*time.Second), p.want)
 	}
 
 	// 4. child sweep
@@ -910,6 +958,8 @@ func replay(c *Ctx) {
 		switch k {
 		case "depth":
 			sp.MaxDepth, _ = strconv.Atoi(v)
+		case "api":
+			sp.ApiLimit, _ = strconv.ParseInt(v, 10, 64)
 		case "cancel":
 			sp.CancelMs, _ = strconv.Atoi(strings.TrimSuffix(v, "ms"))
 		case "dur":
